@@ -282,6 +282,11 @@ def run(tier, seed, replay=None):
                                                 {"op": "OPEN_DIR", "path": pth}, {"op": "READ_DIR"}, {"op": "GET_DIR_SIZE", "path": pth}]})
         worlds.append({"name": "virtual-root", "aw": False, "nodes": nodes, "views": [{"vk": "dvd", "p": []}, {"vk": "dvd", "p": ["g"]}, {"vk": "ps3", "p": []}],
                        "conns": conns, "probe": True})
+        # a burst of connections while the process is momentarily out of descriptors: accept fails temporarily, the server goes on
+        nodes = srv.basic_world(rng)
+        conns = [{"id": k + 1, "reqs": [{"op": "STAT_FILE", "path": "/a"}, {"op": "OPEN_DIR", "path": "/a"}, {"op": "READ_DIR"}]} for k in range(12)]
+        worlds.append({"name": "accept-faults", "aw": False, "nodes": nodes, "views": [{"vk": "dvd", "p": ["a"]}], "conns": conns, "probe": True,
+                       "acceptFaultEvery": 2, "schedule": "rr"})
         # hostile byte streams against a normal tree
         nstream = 300 if not full else 6000
         for i in range(0, nstream, 10):
